@@ -700,8 +700,8 @@ def run_dmap(ctx, D, bench):
             for tail in (b"", b"\x07", b"abcdefghi"):
                 bufs.append(b"".join(n + struct.pack(">I", l) for n, l in seq) + tail)
     rng = ctx.rng.fork("dmap")
-    if len(bufs) > ctx.scale(2500, 12000):
-        bufs = rng.sample(bufs, ctx.scale(2500, 12000))
+    if len(bufs) > ctx.scale(1500, 12000):
+        bufs = rng.sample(bufs, ctx.scale(1500, 12000))
     # declared lengths far beyond the data: the walk over the declared region is ended by Python's
     # recursion limit (about 1000 frames x ~130 line events each: few of these, they are slow to trace)
     for n in usable[:4]:
